@@ -29,6 +29,10 @@ def gen_cases(tier, seed):
         c = D.random_dataset(rng, "P/%d/%d" % (seed, i), scheme=scheme, n_part=int(rng.integers(1, 4)), pkinds=D.ALL_PKINDS,
                              max_rows=120, partition_nulls=True, min_rows=1,
                              value_kinds=D.VALUE_KINDS_SAFE if i % 2 else F.ALL_KINDS)
+        if i % 6 == 5:
+            # a frame whose row index has repeated labels (stacked frames) and is not written
+            c["frame"]["index"] = {"kind": ["dup", "dup_str"][(i // 6) % 2]}
+            c["opts"]["write_index"] = False
         cases.append(c)
     # deterministic: each partition kind alone, both schemes
     k = 0
@@ -42,6 +46,13 @@ def gen_cases(tier, seed):
                                                  {"name": "p0", "kind": pk, "card": card, "off": k}], "index": None},
                               "opts": {"file_scheme": scheme, "partition_on": ["p0"], "row_group_offsets": [0, 13, 27]},
                               "page_size": None, "dpv": 1})
+                if card == 3:
+                    cases.append({"id": "KD/%s/%s" % (pk, scheme),
+                                  "frame": {"seed": 4500 + k, "nrows": 40,
+                                            "cols": [{"name": "rid", "kind": "rid"}, {"name": "v0", "kind": "int64", "nulls": "none"},
+                                                     {"name": "p0", "kind": pk, "card": card, "off": k}], "index": {"kind": "dup"}},
+                                  "opts": {"file_scheme": scheme, "partition_on": ["p0"], "row_group_offsets": [0, 21], "write_index": False},
+                                  "page_size": None, "dpv": 1})
     return cases
 
 
